@@ -38,6 +38,12 @@ static Params A(int K, int M = 1, int two = 0, int cv = 1, int vb = 1, int L = -
     p.L = L;
     return p;
 }
+static Params S(int N) {
+    Params p;
+    p.mode = 'S';
+    p.N = N;
+    return p;
+}
 static Params B(int n0, int n1, int d, int R, int M) {
     Params p;
     p.mode = 'B';
@@ -115,6 +121,7 @@ static void build_table(const std::string& set) {
         add(tname(c01::MMAP, 1, 4, 5, 1), A(3, 3, 0, 1), 4);
         add(tname(c01::MMAP, 1, 4, 5, 1), A(4, 4, 0, 0), 6);
         add(tname(c01::SET, 0, 4, 4, 0), A(6, 1, 1), 3);
+        add(tname(c01::SET, 0, 4, 4, 0), S(25), 40);  // every tree shape with <= 25 keys (three levels, all rebalancing cases between siblings)
         for (auto& c : qcaps) {
             std::string t[2];
             int k[2];
@@ -134,6 +141,7 @@ static void build_table(const std::string& set) {
         add(tname(c01::SET, 0, 4, 4, 0, true), A(9), 6);
         add(tname(c01::MMAP, 0, 4, 4, 0, true), A(3, 4, 0, 0), 4);
         add(tname(c01::SET, 0, 4, 4, 0, true), A(4, 1, 1), 3);
+        add(tname(c01::SET, 0, 4, 4, 0, true), S(21), 40);
         for (auto& c : qcaps) {
             std::string t[2];
             int k[2];
@@ -170,6 +178,19 @@ static void build_table(const std::string& set) {
                         add(t, A(3, 3, 0, 1), P ? 4 : 20);           // data values part of the canonical form
                     }
                 }
+        }
+        // ---- mode S: closure over tree shapes (keys abstracted to ranks) up to N elements
+        if (P) {
+            const int sn[6] = {28, 26, 25, 25, 34, 27};
+            for (int c = 0; c < 6; ++c) {
+                int l = kCaps6[c][0], i = kCaps6[c][1];
+                add(tname(c01::SET, 0, l, i, 0), S(sn[c]), 300);
+                add(tname(c01::MAP, 1, l, i, 1), S(sn[c] - 1), 200);
+            }
+            add(tname(c01::SET, 0, 6, 6, 0), S(36), 200);
+        } else {
+            add(tname(c01::SET, 0, 4, 4, 0, true), S(25), 300);
+            add(tname(c01::MAP, 1, 5, 4, 1, true), S(22), 300);
         }
         // second tree b in the state (assignment between two arbitrary trees, swap), maps with two data values per key
         for (int kind = 0; kind < 4; ++kind) {
